@@ -15,11 +15,17 @@ CONSTANTS Objs,        \* in-memory objects that can be dumped: id -> [kind, rec
           Docs,        \* documents to load: id -> [fmt, suffix, n, hom]  (fmt = what the content really is)
           Paths,       \* dump targets that are paths: id -> suffix
           Streams,     \* dump targets that are the caller's open streams
-          MaxDumps,
+          SrcPaths,    \* paths whose document gets REPLACED between loads: id -> suffix
+          MaxDumps, MaxReplace,
           Deviations
-VARIABLES files, streams, nd, last
-vars == <<files, streams, nd, last>>
-sv   == <<files, streams, nd>>
+VARIABLES files, streams, nd,
+          srcs,        \* SrcPaths -> the document the path currently holds ("none": no file yet)
+          nr, cur,     \* replacements made so far; the path replaced last
+          memo,        \* only under deviation StaleSourceCache: the document first loaded from each path
+          last
+srcv == <<srcs, nr, cur, memo>>
+vars == <<files, streams, nd, srcs, nr, cur, memo, last>>
+sv   == <<files, streams, nd, srcs, nr, cur, memo>>
 
 WriterFmts == {"xyz", "mol2"}                 \* writer.supported_fmts_molli
 ReaderFmts == {"xyz", "mol2", "cdxml"}        \* reader.supported_fmts_molli
@@ -37,6 +43,8 @@ File(c)  == [exists |-> TRUE, content |-> c]
 Init == /\ files = [p \in DOMAIN Paths |-> Absent]
         /\ streams = [s \in Streams |-> [open |-> TRUE, content |-> <<>>]]
         /\ nd = 0
+        /\ srcs = [p \in DOMAIN SrcPaths |-> "none"] /\ nr = 0 /\ cur = "none"
+        /\ memo = [p \in DOMAIN SrcPaths |-> "none"]
         /\ last = [act |-> "init"]
 
 (* ---- the load decision table --------------------------------------------------- *)
@@ -63,6 +71,16 @@ Expect(fn, fmt, otype, named, keyed, n) ==
 
 EffFmt(d, fmtarg) == CASE fmtarg = "suffix" -> Docs[d].suffix [] fmtarg = "content" -> Docs[d].fmt [] OTHER -> fmtarg
 
+(* the cells the table has for document d, and what it demands of them *)
+Offered(fn, d, fmtarg, src, otype, named, keyed) ==
+  LET fmt == EffFmt(d, fmtarg)
+  IN /\ IF fn \in PathFns THEN src \in {"str", "Path"} /\ fmtarg \in {"suffix", "content"} \cup OtherFmts
+                          ELSE src = "text" /\ fmtarg \in {"content"} \cup OtherFmts
+     /\ fmt = "cdxml" => fn \in PathFns
+     /\ keyed => fmt = "cdxml" /\ fn = "load"
+     /\ (ClassOf(otype) = CE /\ fmt \in {"xyz", "mol2"}) => Docs[d].hom
+     /\ fmt \in ReaderFmts => fmt = Docs[d].fmt
+
 (* ml.<fn>(document d ...) *)
 LoadAny(fn, d, fmtarg, src, otype, named, keyed) ==
   LET fmt == EffFmt(d, fmtarg)
@@ -77,8 +95,32 @@ LoadAny(fn, d, fmtarg, src, otype, named, keyed) ==
      /\ UNCHANGED sv
      /\ last' = a @@ Expect(fn, fmt, otype, named, keyed, Docs[d].n)
 
-(* stateless: in the model offered only while nothing has been dumped yet *)
-Load(fn, d, fmtarg, src, otype, named, keyed) == nd = 0 /\ LoadAny(fn, d, fmtarg, src, otype, named, keyed)
+(* stateless: in the model offered only while nothing has been dumped or replaced yet *)
+Load(fn, d, fmtarg, src, otype, named, keyed) == nd = 0 /\ nr = 0 /\ LoadAny(fn, d, fmtarg, src, otype, named, keyed)
+
+(* ---- source paths whose content is replaced between loads ------------------------ *)
+(* the file at source path sp is (re)written with document d (same suffix: the path does not change)     *)
+ReplaceAny(sp, d) ==
+  /\ sp \in DOMAIN SrcPaths /\ Docs[d].suffix = SrcPaths[sp]
+  /\ srcs' = [srcs EXCEPT ![sp] = d] /\ nr' = nr + 1 /\ cur' = sp
+  /\ UNCHANGED <<files, streams, nd, memo>>
+  /\ last' = [act |-> "replace", sp |-> sp, doc |-> d, out |-> "ok"]
+(* ml.load / load_all on a source path: the result is the class-level codec applied to what the file     *)
+(* holds NOW -- whatever was loaded from that path, or from equal content, before                        *)
+LoadSrcAny(fn, sp, fmtarg, src, otype, named, keyed) ==
+  LET stale == "StaleSourceCache" \in Deviations /\ memo[sp] # "none"
+      d     == IF stale THEN memo[sp] ELSE srcs[sp]           \* the document the answer is computed from
+      fmt   == EffFmt(d, fmtarg)
+      a     == [act |-> "loadsrc", fn |-> fn, sp |-> sp, doc |-> d, fmtarg |-> fmtarg, src |-> src, otype |-> otype,
+                named |-> named, keyed |-> keyed]
+  IN /\ sp \in DOMAIN SrcPaths /\ srcs[sp] # "none" /\ fn \in PathFns
+     /\ Offered(fn, srcs[sp], fmtarg, src, otype, named, keyed)
+     /\ memo' = IF "StaleSourceCache" \in Deviations /\ memo[sp] = "none" THEN [memo EXCEPT ![sp] = srcs[sp]] ELSE memo
+     /\ UNCHANGED <<files, streams, nd, srcs, nr, cur>>
+     /\ last' = a @@ Expect(fn, fmt, otype, named, keyed, Docs[d].n)
+(* bounded variants: one path is rewritten up to MaxReplace times, loads go to the path rewritten last   *)
+Replace(sp, d) == nd = 0 /\ nr < MaxReplace /\ cur \in {"none", sp} /\ ReplaceAny(sp, d)
+LoadSrc(fn, sp, fmtarg, src, otype, named, keyed) == sp = cur /\ LoadSrcAny(fn, sp, fmtarg, src, otype, named, keyed)
 
 (* ---- dump targets ---------------------------------------------------------------- *)
 Tok(o, f) == <<o, f>>
@@ -91,7 +133,7 @@ DumpPath(o, t, tkind, fmtarg, mode) ==
       a   == [act |-> "dump", obj |-> o, tgt |-> t, tkind |-> tkind, fmtarg |-> fmtarg, mode |-> mode]
       old == files[t].content
   IN /\ t \in DOMAIN Paths /\ tkind \in {"str", "Path"} /\ nd < MaxDumps
-     /\ nd' = nd + 1 /\ UNCHANGED streams
+     /\ nd' = nd + 1 /\ UNCHANGED <<streams, srcv>>
      /\ IF fmt \in WriterFmts
           THEN /\ files' = [files EXCEPT ![t] = File(IF ModeOf(mode) = "w" THEN <<Tok(o, fmt)>> ELSE Append(old, Tok(o, fmt)))]
                /\ last' = a @@ [out |-> "ok"]
@@ -107,7 +149,7 @@ DumpStream(o, s, fmtarg) ==
   LET fmt == EffDump(s, fmtarg)
       a   == [act |-> "dump", obj |-> o, tgt |-> s, tkind |-> "stream", fmtarg |-> fmtarg, mode |-> "default"]
   IN /\ s \in Streams /\ streams[s].open /\ nd < MaxDumps
-     /\ nd' = nd + 1 /\ UNCHANGED files
+     /\ nd' = nd + 1 /\ UNCHANGED <<files, srcv>>
      /\ IF fmt \in WriterFmts
           THEN /\ streams' = [streams EXCEPT ![s] = [open |-> "StreamClosedAfterDump" \notin Deviations,
                                                     content |-> Append(@.content, Tok(o, fmt))]]
@@ -139,9 +181,11 @@ LoadBack(fn, t, otype, named) ==
      /\ last' = a @@ Expect(fn, fmt, otype, named, FALSE, SumRecs(c))
 
 (* bounded variants for the model: the first dump of a history covers the Path-object target and the rarer formats *)
-DumpPathB(o, t, tk, fa, m) == /\ nd > 0 => tk = "str" /\ fa \notin {"zzz", "cdxml"}
+DumpPathB(o, t, tk, fa, m) == /\ nr = 0
+                              /\ nd > 0 => tk = "str" /\ fa \notin {"zzz", "cdxml"}
                               /\ DumpPath(o, t, tk, fa, m)
-DumpStreamB(o, s, fa)      == /\ nd > 0 => fa \notin {"zzz", "cdxml"}
+DumpStreamB(o, s, fa)      == /\ nr = 0
+                              /\ nd > 0 => fa \notin {"zzz", "cdxml"}
                               /\ DumpStream(o, s, fa)
 Next == \/ \E fn \in PathFns \cup StrFns, d \in DOMAIN Docs, fa \in {"suffix", "content"} \cup OtherFmts,
               src \in {"str", "Path", "text"}, ot \in Otypes, nm \in BOOLEAN, ky \in BOOLEAN : Load(fn, d, fa, src, ot, nm, ky)
@@ -151,18 +195,21 @@ Next == \/ \E fn \in PathFns \cup StrFns, d \in DOMAIN Docs, fa \in {"suffix", "
         \/ \E o \in DOMAIN Objs, fa \in {"cdxml"} \cup WriterFmts \cup OtherFmts : Dumps(o, fa)
         \/ \E fn \in PathFns, t \in DOMAIN Paths, ot \in {"molecule", "ensemble", "Structure"}, nm \in BOOLEAN :
               LoadBack(fn, t, ot, nm)                        \* class objects as otype: covered by the Load cells
+        \/ \E sp \in DOMAIN SrcPaths, d \in DOMAIN Docs : Replace(sp, d)
+        \/ \E fn \in PathFns, sp \in DOMAIN SrcPaths, fa \in {"suffix", "content"}, src \in {"str", "Path"},
+              ot \in {"molecule", "ensemble", "Structure"}, nm \in BOOLEAN, ky \in BOOLEAN : LoadSrc(fn, sp, fa, src, ot, nm, ky)
 Spec == Init /\ [][Next]_vars
 
 (* ---- the clauses of C09 ---------------------------------------------------------- *)
-IsLoad(a) == a.act \in {"load", "loadback"}
+IsLoad(a) == a.act \in {"load", "loadback", "loadsrc"}
 (* the table is total: every offered cell gets exactly an error class or a full description *)
-Total == last.act \in {"load", "loadback"} =>
+Total == last.act \in {"load", "loadback", "loadsrc"} =>
            \/ last.out \in {"ValueError"} /\ DOMAIN last \cap {"route", "shape"} = {}
            \/ last.out = "ok" /\ {"route", "shape", "cls", "count", "agrees", "nameok"} \subseteq DOMAIN last
 ListsWherePromised ==
   [][(IsLoad(last') /\ last'.out = "ok") => (last'.shape = "list" <=> last'.fn \in AllFns)]_vars
 UnsupportedIsValueError ==
-  [][/\ (last'.act = "load" /\ EffFmt(last'.doc, last'.fmtarg) \notin ReaderFmts) => last'.out = "ValueError"
+  [][/\ (last'.act \in {"load", "loadsrc"} /\ EffFmt(last'.doc, last'.fmtarg) \notin ReaderFmts) => last'.out = "ValueError"
      /\ (last'.act = "dump" /\ EffDump(last'.tgt, last'.fmtarg) \notin WriterFmts) => last'.out = "ValueError"
      /\ (last'.act = "dumps" /\ last'.fmtarg \notin WriterFmts) => last'.out = "ValueError"]_vars
 SupportedSucceeds ==
@@ -172,6 +219,8 @@ SupportedSucceeds ==
 RouteMatchesOtype ==
   [][(IsLoad(last') /\ last'.out = "ok") => last'.cls = ClassOf(last'.otype) /\ last'.agrees]_vars
 NameHonoured == [][(IsLoad(last') /\ last'.out = "ok") => last'.nameok]_vars
+(* a load of a path answers for the document the path holds at that moment (no memory of earlier loads) *)
+LoadsCurrentContent == [][last'.act = "loadsrc" => last'.doc = srcs[last'.sp]]_vars
 (* a caller's stream stays open and grows by exactly the text of each successful dump, by nothing otherwise *)
 StreamsStayOpen == \A s \in Streams : streams[s].open
 StreamGrowsByText ==
@@ -187,7 +236,8 @@ AppendAccumulates ==
                   old == files[t].content
               IN files'[t] = File(IF last'.mode = "w" THEN <<tok>> ELSE Append(old, tok))
          ELSE last'.act # "dump" \/ last'.tgt # t => files'[t] = files[t]]_vars
-TypeOK == /\ nd \in 0..MaxDumps
+TypeOK == /\ nd \in 0..MaxDumps /\ nr \in 0..MaxReplace
+          /\ \A p \in DOMAIN SrcPaths : srcs[p] = "none" \/ Docs[srcs[p]].suffix = SrcPaths[p]
           /\ \A t \in DOMAIN Paths : /\ \A i \in 1..Len(files[t].content) : files[t].content[i][1] \in DOMAIN Objs
                                       /\ ~files[t].exists => files[t].content = <<>>
 =============================================================================
